@@ -60,7 +60,7 @@ func validateEvalFlags() error {
 		return errors.New(netpolerrors.OnlyOneDstFlagErrStr)
 	}
 
-	if srcExternalIP != "" && dstExternalIP == "" {
+	if srcExternalIP != "" && dstExternalIP != "" {
 		return errors.New(netpolerrors.OnlyOneIPPeerErrStr)
 	}
 
